@@ -275,6 +275,8 @@ inductive Atom
   | s (x : Str)
   | i (x : Int)      -- Python `bool` compares equal to 0/1 and is exported as such
   | none
+  | o (n : Nat)      -- a model element: `ModelElement.__eq__` is identity of the XML element
+  | f (num : Int) (den : Nat)  -- a non-integral `float` as its exact fraction (integral ones are `i`)
 deriving DecidableEq, Repr
 
 /-- what `extract_key` yields (enum members already replaced by their name) -/
